@@ -18,7 +18,7 @@ func init() {
 		Pkgs:  []string{"./pkg/dhcp", "./pkg/dhcpv6", "./pkg/ebpf", "./pkg/qos", "./pkg/nat", "./pkg/radius", "./pkg/nexus", "./pkg/allocator"},
 		Funcs: []string{
 			// DHCPv4 pool: ownership invariants and whole-view postconditions
-			"dhcp.Pool.Allocate", "dhcp.Pool.Release", "dhcp.Pool.MarkUnavailable", "dhcp.Pool.IsAllocatedTo",
+			"dhcp.Pool.Allocate", "dhcp.Pool.Release", "dhcp.Pool.MarkUnavailable", "dhcp.Pool.IsAllocatedTo", "dhcp.Pool.Rebind",
 			// DHCPv4 server: the ACK gate and the OFFER source, with the frames they rest on
 			"dhcp.Server.handleRequest", "dhcp.Server.handleDiscover",
 			"dhcp.parseOption82", "dhcp.Server.lookupLeaseByCircuitID", "dhcp.Server.buildNAK", "dhcp.Server.updateFastPathCache",
